@@ -20,10 +20,10 @@ Inductive prog (A : Type) : Type :=
 | NoFuel                                 (* model artefact: recursion budget exhausted *)
 | Read (n : N) (k : list byte -> prog A) (* Input::read of n bytes *)
 | ReadByte (k : byte -> prog A)          (* Input::read_byte *)
-| Remaining (k : option N -> prog A)     (* Input::remaining_len *)
+| Need (n : N) (k : prog A)              (* `if let Some(len) = input.remaining_len()? { if len < n { return Err } }` *)
 | Emit (h : hook) (k : prog A).          (* descend_ref / ascend_ref / on_before_alloc_mem *)
 Arguments Ret {A}. Arguments Fail {A}. Arguments Crash {A}. Arguments NoFuel {A}.
-Arguments Read {A}. Arguments ReadByte {A}. Arguments Remaining {A}. Arguments Emit {A}.
+Arguments Read {A}. Arguments ReadByte {A}. Arguments Need {A}. Arguments Emit {A}.
 
 Fixpoint bindp {A B} (p : prog A) (f : A -> prog B) : prog B :=
   match p with
@@ -33,7 +33,7 @@ Fixpoint bindp {A B} (p : prog A) (f : A -> prog B) : prog B :=
   | NoFuel => NoFuel
   | Read n k => Read n (fun bs => bindp (k bs) f)
   | ReadByte k => ReadByte (fun b => bindp (k b) f)
-  | Remaining k => Remaining (fun r => bindp (k r) f)
+  | Need n k => Need n (bindp k f)
   | Emit h k => Emit h (bindp k f)
   end.
 
@@ -48,7 +48,7 @@ Open Scope prog_scope.
 Definition emit (h : hook) : prog unit := Emit h (Ret tt).
 Definition read (n : N) : prog (list byte) := Read n (fun bs => Ret bs).
 Definition read_byte : prog byte := ReadByte (fun b => Ret b).
-Definition remaining : prog (option N) := Remaining (fun r => Ret r).
+Definition need (n : N) : prog unit := Need n (Ret tt).
 
 (* repetition: Peano version (for proofs) and binary version (for execution
    with hostile counts: O(log n) work before the first request) *)
@@ -81,7 +81,65 @@ Inductive out (A : Type) :=
 | OOk (a : A) (rest : list byte) | OErr (rest : list byte) | OPanic | ONoFuel.
 Arguments OOk {A}. Arguments OErr {A}. Arguments OPanic {A}. Arguments ONoFuel {A}.
 
-Definition avail (n : N) (bs : list byte) : bool := n <=? N.of_nat (length bs).
+(* [avail n bs]: at least n bytes are there.  Computed by dropping n bytes with a
+   binary recursion on n, so that a read costs O(n) (not O(length bs)) and a
+   hostile n of 2^32 never becomes a unary number; [avail_spec] gives the
+   arithmetic reading used in every proof. *)
+Fixpoint drop_pos (p : positive) (bs : list byte) : option (list byte) :=
+  match p with
+  | xH => match bs with [] => None | _ :: r => Some r end
+  | xO q => match drop_pos q bs with Some r => drop_pos q r | None => None end
+  | xI q => match bs with
+            | [] => None
+            | _ :: r => match drop_pos q r with Some r' => drop_pos q r' | None => None end
+            end
+  end.
+Definition avail (n : N) (bs : list byte) : bool :=
+  match n with
+  | N0 => true
+  | Npos p => match drop_pos p bs with Some _ => true | None => false end
+  end.
+
+Lemma skipn_skipn' {A} (a b : nat) : forall l : list A, skipn a (skipn b l) = skipn (b + a) l.
+Proof.
+  induction b as [|b IH]; intros l; [reflexivity|].
+  destruct l as [|x l]; cbn [skipn Nat.add]; [now rewrite skipn_nil|apply IH].
+Qed.
+
+Lemma drop_pos_spec p : forall bs,
+  drop_pos p bs = if (Pos.to_nat p <=? length bs)%nat then Some (skipn (Pos.to_nat p) bs) else None.
+Proof.
+  induction p as [q IH|q IH|]; intros bs; cbn [drop_pos].
+  - destruct bs as [|b r]; [destruct (Nat.leb_spec (Pos.to_nat q~1) (length (@nil byte))); [cbn [length] in *; lia|reflexivity]|].
+    rewrite IH. cbn [length].
+    destruct (Nat.leb_spec (Pos.to_nat q) (length r)).
+    + rewrite IH, skipn_length.
+      destruct (Nat.leb_spec (Pos.to_nat q) (length r - Pos.to_nat q));
+        destruct (Nat.leb_spec (Pos.to_nat q~1) (S (length r))); try lia.
+      * f_equal. rewrite skipn_skipn'. replace (Pos.to_nat q~1) with (S (Pos.to_nat q + Pos.to_nat q)) by lia.
+        reflexivity.
+      * reflexivity.
+    + destruct (Nat.leb_spec (Pos.to_nat q~1) (S (length r))); [lia|reflexivity].
+  - rewrite IH.
+    destruct (Nat.leb_spec (Pos.to_nat q) (length bs)).
+    + rewrite IH, skipn_length.
+      destruct (Nat.leb_spec (Pos.to_nat q) (length bs - Pos.to_nat q));
+        destruct (Nat.leb_spec (Pos.to_nat q~0) (length bs)); try lia.
+      * f_equal. rewrite skipn_skipn'. replace (Pos.to_nat q~0) with (Pos.to_nat q + Pos.to_nat q)%nat by lia.
+        reflexivity.
+      * reflexivity.
+    + destruct (Nat.leb_spec (Pos.to_nat q~0) (length bs)); [lia|reflexivity].
+  - destruct bs as [|b r]; reflexivity.
+Qed.
+
+Lemma avail_spec n bs : avail n bs = (n <=? N.of_nat (length bs)).
+Proof.
+  destruct n as [|p]; cbn [avail].
+  - symmetry. apply N.leb_le. lia.
+  - rewrite drop_pos_spec.
+    destruct (Nat.leb_spec (Pos.to_nat p) (length bs)); destruct (N.leb_spec (N.pos p) (N.of_nat (length bs))); try reflexivity; lia.
+Qed.
+Global Opaque avail.
 
 Fixpoint runo {A} (p : prog A) (known : bool) (bs : list byte) : out A :=
   match p with
@@ -94,7 +152,7 @@ Fixpoint runo {A} (p : prog A) (known : bool) (bs : list byte) : out A :=
       then runo (k (firstn (N.to_nat n) bs)) known (skipn (N.to_nat n) bs)
       else OErr bs
   | ReadByte k => match bs with [] => OErr bs | b :: r => runo (k b) known r end
-  | Remaining k => runo (k (if known then Some (N.of_nat (length bs)) else None)) known bs
+  | Need n k => if known && negb (avail n bs) then OErr bs else runo k known bs
   | Emit _ k => runo k known bs
   end.
 
@@ -114,7 +172,7 @@ Fixpoint runt {A} (p : prog A) (known : bool) (bs : list byte) : out A * list ev
       else (OErr bs, [])
   | ReadByte k =>
       match bs with [] => (OErr bs, []) | b :: r => cons_ev (ERead 1) (runt (k b) known r) end
-  | Remaining k => runt (k (if known then Some (N.of_nat (length bs)) else None)) known bs
+  | Need n k => if known && negb (avail n bs) then (OErr bs, []) else runt k known bs
   | Emit h k => cons_ev (EHook h) (runt k known bs)
   end.
 
@@ -150,7 +208,7 @@ Fixpoint run (m : monitor) {A} (p : prog A) (known : bool) (bs : list byte) (s :
                   | (s', false) => RErr s'
                   end
       end
-  | Remaining k => run m (k (if known then Some (N.of_nat (length bs)) else None)) known bs s
+  | Need n k => if known && negb (avail n bs) then RErr s else run m k known bs s
   | Emit h k =>
       match mstep m (EHook h) s with
       | (s', true) => run m k known bs s'
